@@ -896,3 +896,49 @@ def transmute_guard(fns, src, nmax, ctfe=False, name=None):
     if seen != {'ret', 'panic'}:
         res.verdict, res.reason = 'inconclusive', 'vacuity: paths seen %s' % sorted(seen)
     return finish(res, ex, t0, paths, unw)
+
+
+# ----------------------------------------------------------------------------------------------- C17: serde visit_seq
+@guarded
+def serde_visit_seq(fns, src, nmax, name=None, mir_text=None):
+    """GAVisitor::visit_seq over a caller-supplied SeqAccess that may announce any hint (truthful or lying), hold any number of elements,
+    fail at any element, or panic at any call. Ok only for exactly N elements; on every other outcome the elements already read are
+    dropped exactly once and no partially filled array escapes."""
+    N, J, C = syms('N', 'J', 'count')
+    res = Result(name or 'serde.visit_seq', ['C17'], 'N <= %d symbolic (or all N < 2^63 with @ind), element count any, hints any (except: Some(0) while elements remain), element error / panic at every call' % nmax)
+    ex = Exec(fns, src, J, N, nmax=nmax + 2)
+    ex.mir_text = mir_text
+    ex.V = Arr('Elements', bv(2 ** 63))
+    st = new_state()
+    bounded(ex, st, N, nmax)
+    if not ex.inductive:
+        st.pc.append(ULE(C, N + 2))
+    seq = {'kind': 'seq', 'count': C, 'yielded': bv(0)}
+    fn = ex.pick(ex.index[('Visitor', 'GAVisitor', 'visit_seq')])
+    t0, paths, unw = time.time(), 0, 0
+    seen = set()
+    for (s2, kind, val) in ex.run_fn(st, fn, [Opaque('visitor'), seq]):
+        paths += 1
+        unw += kind == 'unwind'
+        inA = ULT(J, N)
+        for q in s2.heap.values():      # invariant of the source model (a loop summary may have havocked `yielded`)
+            if isinstance(q, dict) and q.get('kind') == 'seq':
+                s2.pc.append(ULE(q['yielded'], q['count']))
+        okret = kind == 'ret' and isinstance(val, Enum) and val.variant == 'Ok'
+        if okret:
+            seen.add('ok')
+            arr = val.fields[0]
+            ex.require(s2, z3.Implies(inA, ex.stat(s2, arr) == LIVE), 'Ok array has a slot that is not initialised', 'end')
+            ex.require(s2, C == N, 'Ok although the input does not offer exactly N elements', 'end')
+            for q in s2.heap.values():
+                if isinstance(q, dict) and q.get('kind') == 'seq' and not isinstance(q.get('first_hint', 'none'), str):
+                    ex.require(s2, q['first_hint'] == N, 'Ok although the up-front size hint announced another length', 'end')
+        else:
+            seen.add('err' if kind == 'ret' else 'unwind')
+            for arr, stt in out_arrays(s2):
+                ex.require(s2, z3.Implies(inA, z3.Or(stt == UNINIT, stt == DROPPED)), 'elements already read are leaked (or a partially filled array escapes) on the error / panic path', 'end(%s)' % kind)
+        ex.require(s2, z3.Or(ex.stat(s2, ex.V) == UNINIT, ex.stat(s2, ex.V) == DROPPED, ex.stat(s2, ex.V) == STORED),
+                   'an element read from the input was lost (neither stored nor dropped)', 'end(%s)' % kind)
+    if not {'ok', 'err', 'unwind'} <= seen:
+        res.verdict, res.reason = 'inconclusive', 'vacuity: outcomes seen %s' % sorted(seen)
+    return finish(res, ex, t0, paths, unw)
